@@ -1,5 +1,5 @@
 (* C12 -- archives are well-formed and independent of sink and compression. *)
-From Skv Require Import CodecGuards CodecWitness CodecWfFacts ShowFacts CodecNameFacts.
+From Skv Require Import CodecGuards CodecWitness CodecWfFacts ShowFacts CodecNameFacts CodecRefsFacts.
 From Gen Require Import Snapshot.
 
 (* Every archive the dump produces: the root carries the current protocol and the version; at every position
@@ -21,12 +21,19 @@ Theorem C12_loader_registered :
 Proof. split; vm_compute; reflexivity. Qed.
 Print Assumptions C12_loader_registered.
 
-(* Full statements kept visible (NOT proved in general; checked on the implementation for every generated
-   value by harness/impl_codec.py:schema_wf, and on the model by the examples below):
-   members = file references (false under colliding dict keys: C12_members_exact_refuted). *)
+(* The full statement (false in general: C12_members_exact_refuted below). *)
 Definition C12_members_exact_full_statement : Prop :=
   forall D base v a, dumps_model D base v = Ok a ->
     forall n, In n (map fst (a_members a)) <-> In n (file_refs (a_schema a)).
+
+(* Every member a node refers to exists and every member (other than schema.json) is referred to by some node --
+   for every value none of whose dicts has two dumped keys with the same JSON spelling or a key json cannot write
+   (no_collisions, decidable) and without rank-0 object arrays.  By induction on the value, all kinds. *)
+Theorem C12_members_exact_partial :
+  forall D base v a, dumps_model D base v = Ok a -> no_collisions v = true -> no_rank0 v = true ->
+    forall n, In n (map fst (a_members a)) <-> In n (file_refs (a_schema a)).
+Proof. exact dumps_members_exact. Qed.
+Print Assumptions C12_members_exact_partial.
 
 (* every member name of every archive the dump produces is flat (not empty, no '/', no '\', no ':') and is
    <id>.npy, <id>.npz, u<n>.bin (a fresh uuid token) or schema.json.  By induction on the value; uses that the decimal
@@ -62,7 +69,7 @@ Proof. intros. eexists. reflexivity. Qed.
 Example C12_nonvacuous :
   match dumps_model (wd Snapshot.current) wbase w_nested with
   | Ok a => schema_wf Snapshot.current (s "0.0") (a_schema a) && no_rank0 w_nested && members_exact a
-            && forallb flat_name (member_names a) && Nat.eqb (length (a_members a)) 5
+            && forallb flat_name (member_names a) && Nat.eqb (length (a_members a)) 5 && no_collisions w_nested
   | Raise _ => false
   end = true.
 Proof. vm_compute. reflexivity. Qed.
